@@ -76,7 +76,7 @@ def stream_recipes(nmax=3):
     return out
 
 
-def build_stream(iface, kind, n, raise_at):
+def build_stream(iface, kind, n, raise_at, Boom=Boom):
     m = mod_for(iface)
     items = [b"", b"a", b"bb", b"", b"ccc", b"d"][:n] if kind == "stream" else [{"data": "x"}, {}, {"id": "1", "data": "y\nz"}, {"retry": 5}, {"event": "e"}, {"data": ""}][:n]
 
@@ -404,6 +404,28 @@ def run_extras(r, iface):
         finally:
             os.chdir(cwd)
             sk.close()
+        # ... and links to regular files (a relative one, an absolute one, a link to a link, a link whose target lives in another
+        # directory): whole, one range, several ranges
+        with open(os.path.join(sd, "real.html"), "w") as f:
+            f.write("0123456789")
+        os.makedirs(os.path.join(d, "elsewhere"))
+        with open(os.path.join(d, "elsewhere", "target.html"), "w") as f:
+            f.write("abcdefghij")
+        os.symlink("real.html", os.path.join(sd, "rel.html"))
+        os.symlink(os.path.join(sd, "real.html"), os.path.join(sd, "abs.html"))
+        os.symlink("rel.html", os.path.join(sd, "chain.html"))
+        os.symlink(os.path.join(d, "elsewhere", "target.html"), os.path.join(sd, "far.html"))
+        for lname in ("rel.html", "abs.html", "chain.html", "far.html"):
+            for hs in ([], [("Range", "bytes=2-5")], [("Range", "bytes=0-1,4-7")]):
+                for method in ("GET", "HEAD"):
+                    for aname, app in (("FileResponse", m.FileResponse(os.path.join(sd, lname))), ("Files", m.Files(sd)), ("Pages", m.Pages(sd))):
+                        req = SV.AReq(path="/" + lname, method=method, headers=hs)
+                        res = SV.run_wsgi(app, SV.to_environ(req), monitor=False) if iface == "wsgi" else SV.run_asgi(app, SV.to_scope(req), SV.to_messages(req), monitor=False)
+                        r.count("evaluations")
+                        r.count("distinct_nontrivial")
+                        if isinstance(res.exc, HTTPException) and 400 <= res.exc.status_code < 500 and not (res.events if iface == "asgi" else res.start_calls):
+                            continue
+                        judge(r, iface, f"{aname} on the link {lname} ({method} {hs})", res, None)
         for kind in ("Files", "Pages"):
             for with404 in (False, True):
                 app = getattr(m, kind)(sd, **({"handle_404": m.PlainTextResponse("custom", 404)} if with404 else {}))
@@ -597,6 +619,30 @@ def run_shard(desc, tier):
                     judge(r, iface, name, call(iface, resp2, close_after=f), f"close() after {f} item(s)")
                 else:
                     judge(r, iface, name, call(iface, resp2, send_fail_at=f), f"send() fails at call {f}")
+        # the same streams returned by a view behind the shortcut decorator (alone, and behind the identity middleware), with producers
+        # that fail with the library's own exception classes: what type the failure has does not change what may follow a response
+        # that has begun
+        from baize.exceptions import HTTPException
+        Wd = __import__("vf.props.c20", fromlist=["wrappers"]).wrappers(iface)
+        m = mod_for(iface)
+        for ename, mkexc in (("HTTPException(502)", lambda *a: HTTPException(502)), ("HTTPException(404)", lambda *a: HTTPException(404, content="gone")), ("KeyError", KeyError), ("Boom", Boom)):
+            for kind, n, raise_at in stream_recipes(2):
+                if raise_at is None:
+                    continue
+                for stack in ((), ("M",)):
+                    if iface == "wsgi":
+                        @m.request_response
+                        def view(request):
+                            return build_stream(iface, kind, n, raise_at, Boom=mkexc)
+                    else:
+                        @m.request_response
+                        async def view(request):
+                            return build_stream(iface, kind, n, raise_at, Boom=mkexc)
+                    app = view
+                    for wname in stack:
+                        app = Wd[wname](app)
+                    res = call(iface, app)
+                    judge(r, iface, f"{kind} n={n} behind request_response{' and middleware' if stack else ''}, producer raises {ename} at step {raise_at}", res, f"producer raises {ename} at step {raise_at}")
         if iface == "asgi":
             # the same streams as the response that refuses a WebSocket handshake on a server with the denial extension: with a
             # producer that fails at any point, what was emitted is still a legal prefix (start, body ... - nothing else)
